@@ -23,6 +23,7 @@
 package ipfix
 
 import (
+	"bytes"
 	"encoding/binary"
 	"encoding/json"
 	"hash/fnv"
@@ -43,6 +44,12 @@ type MemCache []*TemplatesShard
 type Data struct {
 	Template  TemplateRecord
 	Timestamp int64
+	Addr      []byte // address of the exporter the template belongs to, as received
+}
+
+// owns reports whether the entry is the template id of the exporter addr
+func (d Data) owns(id uint16, addr net.IP) bool {
+	return d.Template.TemplateID == id && bytes.Equal(d.Addr, addr)
 }
 
 // TemplatesShard represents a shard
@@ -95,7 +102,12 @@ func (m MemCache) insert(id uint16, addr net.IP, tr TemplateRecord) {
 	shard, key := m.getShard(id, addr)
 	shard.Lock()
 	defer shard.Unlock()
-	shard.Templates[key] = Data{tr, time.Now().Unix()}
+	// another exporter / template id may hash to the same key: probe for this pair's own slot
+	for v, ok := shard.Templates[key]; ok && !v.owns(id, addr); v, ok = shard.Templates[key] {
+		key++
+	}
+	tr.TemplateID = id
+	shard.Templates[key] = Data{tr, time.Now().Unix(), append([]byte{}, addr...)}
 }
 
 func (m MemCache) retrieve(id uint16, addr net.IP) (TemplateRecord, bool) {
@@ -103,6 +115,10 @@ func (m MemCache) retrieve(id uint16, addr net.IP) (TemplateRecord, bool) {
 	shard.RLock()
 	defer shard.RUnlock()
 	v, ok := shard.Templates[key]
+	for ok && !v.owns(id, addr) {
+		key++
+		v, ok = shard.Templates[key]
+	}
 
 	return v.Template, ok
 }
